@@ -11,6 +11,13 @@ delegate present, reveal proof present) are enumerated.  `forge_entrypoint`: eve
 from the protocol), any other name (symbolic bytes, length 1..31) -> ff ‖ len8 ‖ name.  `forge_operation_group`:
 branch ‖ contents in order (1..3 contents).  Unique decodability is a property of the schema (every field is
 fixed-width, self-delimiting N, or length-prefixed) and is exercised by the decoder in C06_R.
+
+Widened (audit of over-specific inputs): optional fields are not only "key absent" / "key present and truthy" - the
+absent-by-value forms are cases of their own: `delegate` '' (what OperationGroup.delegation() writes by default) and None,
+`parameters` None and {} (the code's own `not content.get(...)` reading; the independent oracle specs/operation_schema.py
+reads them the same way); reserved non-default entrypoints with an OPAQUE value, an OPAQUE entrypoint with an opaque value
+(forge_entrypoint as a constructor); the parameters value as an OPAQUE Micheline node with symbolic facts {primitive is Unit,
+has args, has annotations} (elided iff default entrypoint and bare Unit), concrete Unit spellings x entrypoint kinds; groups of MIXED kinds, of 5 contents, and with the same content object twice.
 """
 import ast
 import z3
@@ -67,6 +74,99 @@ class Tok:
         return NotImplemented
 
 
+class GNode(Tok):
+    """opaque Micheline node (the `parameters value`) of which only three facts are symbolic: its primitive is Unit, it has
+    (non-empty) args, it has (non-empty) annots.  It answers `== {'prim': 'Unit'}` (the bare node: Unit, no args, no annots),
+    `isinstance(_, dict)`, `.get('prim') == 'Unit'`, truthiness of `.get('args')` / `.get('annots')` and `'args' in _` -
+    whatever way the code decides "is this Unit", the decision is a formula over the three facts."""
+
+    def __init__(self, name):
+        super().__init__(name)
+        self.unit, self.args, self.annots = z3.Bool(f'{name}.prim_is_Unit'), z3.Bool(f'{name}.has_args'), z3.Bool(f'{name}.has_annots')
+
+    def bare_unit(self):
+        return z3.And(self.unit, z3.Not(self.args), z3.Not(self.annots))
+
+    def __pyvc_isinstance__(self, cs):
+        return dict in cs
+
+    def __pyvc_cmp__(self, eng, op, other, refl):
+        if isinstance(op, (ast.Eq, ast.NotEq)) and isinstance(other, dict):
+            if other.get('prim') == 'Unit' and not other.get('args') and not other.get('annots'):
+                r = self.bare_unit()      # the concrete bare node (facts are about NON-EMPTY args / annots)
+            else:
+                raise Unsupported(f'comparison of the ghost node with {other!r}')
+            return Sym(r if isinstance(op, ast.Eq) else z3.Not(r))
+        return super().__pyvc_cmp__(eng, op, other, refl)
+
+    def __pyvc_contains__(self, eng, x):
+        if x == 'prim':
+            return True
+        if x in ('args', 'annots'):       # key present: at least when the list is non-empty; an empty list may be present too
+            return Sym(z3.Or(self.args if x == 'args' else self.annots, z3.Bool(f'{self.name}.has_empty_{x}_key')))
+        return False
+
+    def __pyvc_getitem__(self, eng, k):
+        return self._field(k)
+
+    def _field(self, k):
+        if k == 'prim':
+            return GPrim(self)
+        if k in ('args', 'annots'):
+            return GList(self.args if k == 'args' else self.annots, f'{self.name}.{k}')
+        raise Unsupported(f'{self.name}[{k!r}]')
+
+    def __pyvc_attr__(self, eng, name):
+        if name == 'get':
+            return _KF(lambda a, k: self._field(a[0]))
+        if name == 'keys':
+            raise Unsupported('keys of the ghost node')
+        return super().__pyvc_attr__(eng, name)
+
+
+class GPrim(Tok):
+    def __init__(self, node):
+        super().__init__(f'{node.name}.prim')
+        self.node = node
+
+    def __pyvc_cmp__(self, eng, op, other, refl):
+        if isinstance(op, (ast.Eq, ast.NotEq)) and other == 'Unit':
+            return Sym(self.node.unit if isinstance(op, ast.Eq) else z3.Not(self.node.unit))
+        raise Unsupported(f'comparison of the ghost primitive with {other!r}')
+
+
+class GList(Tok):
+    """args / annots of the ghost node: only emptiness is known"""
+
+    def __init__(self, nonempty, name):
+        super().__init__(name)
+        self.nonempty = nonempty
+
+    def __pyvc_truth__(self, eng):
+        return Sym(self.nonempty)
+
+    def __pyvc_len__(self, eng):
+        raise Unsupported('length of ghost args / annots')
+
+    def __pyvc_cmp__(self, eng, op, other, refl):
+        if isinstance(op, (ast.Eq, ast.NotEq)) and other in ([], None, ()):
+            if other is None:
+                raise Unsupported('ghost list compared with None (key presence is not modelled)')
+            r = z3.Not(self.nonempty)
+            return Sym(r if isinstance(op, ast.Eq) else z3.Not(r))
+        raise Unsupported(f'comparison of ghost args / annots with {other!r}')
+
+
+class _KF:
+    __pyvc_symbolic__ = True
+
+    def __init__(self, f):
+        self.f = f
+
+    def __pyvc_call__(self, eng, args, kwargs):
+        return self.f(args, kwargs)
+
+
 class _K:
     __pyvc_symbolic__ = True
 
@@ -119,7 +219,7 @@ def C(name, *args):
     return ('C', name) + tuple(args)
 
 
-def install(e):
+def install(e, stub_entrypoint=False):
     from pytezos.operation import forge as F
     from pytezos.michelson import forge as MF
 
@@ -141,6 +241,8 @@ def install(e):
     e.stub(F.forge_micheline, ctor('MICH'))
     e.stub(F.forge_script, ctor('SCRIPT'))
     e.stub(F.forge_array, forge_array)
+    if stub_entrypoint:
+        e.stub(F.forge_entrypoint, ctor('EP'))
 
 
 def manager(kind, src='source'):
@@ -181,7 +283,53 @@ def cases():
         out.append((f'transaction+%{name}', 'forge_transaction',
                     content_of('transaction', amount=Tok('amount'), destination=Tok('destination'), parameters={'entrypoint': name, 'value': {'prim': 'Unit'}}),
                     tx + [b'\xff' + bytes([tag]), C('ARR', 4, (C('MICH', {'prim': 'Unit'}),))]))
+    # reserved non-default entrypoints with ANY value (opaque), not only Unit
+    for name, tag in RESERVED.items():
+        if name == 'default':
+            continue
+        out.append((f'transaction+%{name} opaque value', 'forge_transaction',
+                    content_of('transaction', amount=Tok('amount'), destination=Tok('destination'), parameters={'entrypoint': name, 'value': Tok('value')}),
+                    tx + [b'\xff' + bytes([tag]), C('ARR', 4, (C('MICH', '<value>'),))]))
+    # any entrypoint that is not the literal 'default' (opaque token; forge_entrypoint as the constructor EP) with any value
+    out.append(('transaction+opaque entrypoint', 'forge_transaction',
+                content_of('transaction', amount=Tok('amount'), destination=Tok('destination'), parameters={'entrypoint': Tok('entrypoint'), 'value': Tok('value')}),
+                tx + [b'\xff', C('EP', '<entrypoint>'), C('ARR', 4, (C('MICH', '<value>'),))]))
+    out.append(('transaction+opaque entrypoint Unit', 'forge_transaction',
+                content_of('transaction', amount=Tok('amount'), destination=Tok('destination'), parameters={'entrypoint': Tok('entrypoint'), 'value': {'prim': 'Unit'}}),
+                tx + [b'\xff', C('EP', '<entrypoint>'), C('ARR', 4, (C('MICH', {'prim': 'Unit'}),))]))
+    # Unit spellings x entrypoint kinds (seed C06_5: annotations ignored by the Unit test)
+    from bounded.C06_enum import CANDIDATE_DEFECT_UNIT_SPELLINGS
+    annotated = [{'prim': 'Unit', 'annots': ['%x']}, {'prim': 'Unit', 'args': [], 'annots': ['%x', ':t']}]
+    empty_lists = [{'prim': 'Unit', 'args': []}, {'prim': 'Unit', 'annots': []}, {'prim': 'Unit', 'args': [], 'annots': []}]
+    for ep, epb in (('default', b'\xff\x00'), ('root', b'\xff\x01'), ('stake', b'\xff\x06')):
+        for i, v in enumerate(annotated):
+            out.append((f'transaction+%{ep} annotated Unit#{i}', 'forge_transaction',
+                        content_of('transaction', amount=Tok('amount'), destination=Tok('destination'), parameters={'entrypoint': ep, 'value': v}),
+                        tx + [epb, C('ARR', 4, (C('MICH', v),))]))
+        for i, v in enumerate(empty_lists):
+            if ep == 'default':
+                # the same node as the bare Unit: canonical = elided.  pytezos forges explicit parameters -> CANDIDATE_DEFECT (disabled)
+                if CANDIDATE_DEFECT_UNIT_SPELLINGS:
+                    out.append((f'transaction+%default Unit with empty lists#{i}', 'forge_transaction',
+                                content_of('transaction', amount=Tok('amount'), destination=Tok('destination'), parameters={'entrypoint': ep, 'value': v}),
+                                tx + [b'\x00']))
+            else:
+                out.append((f'transaction+%{ep} Unit with empty lists#{i}', 'forge_transaction',
+                            content_of('transaction', amount=Tok('amount'), destination=Tok('destination'), parameters={'entrypoint': ep, 'value': v}),
+                            tx + [epb, C('ARR', 4, (C('MICH', v),))]))
+    for i, v in enumerate(annotated + empty_lists):
+        out.append((f'transaction+opaque entrypoint Unit spelling#{i}', 'forge_transaction',
+                    content_of('transaction', amount=Tok('amount'), destination=Tok('destination'), parameters={'entrypoint': Tok('entrypoint'), 'value': v}),
+                    tx + [b'\xff', C('EP', '<entrypoint>'), C('ARR', 4, (C('MICH', v),))]))
+    # absent-by-value forms of the optional fields (key present, value falsy)
+    for nm, falsy in (('None', None), ('{}', {})):
+        out.append((f'transaction parameters={nm}', 'forge_transaction',
+                    content_of('transaction', amount=Tok('amount'), destination=Tok('destination'), parameters=falsy), tx + [b'\x00']))
     org = manager('origination') + [C('NAT', '<int(balance)>')]
+    for nm, falsy in (("''", ''), ('None', None)):
+        out.append((f'origination delegate={nm}', 'forge_origination', content_of('origination', balance=Tok('balance'), script=Tok('script'), delegate=falsy),
+                    org + [b'\x00', C('SCRIPT', '<script>')]))
+        out.append((f'delegation delegate={nm}', 'forge_delegation', content_of('delegation', delegate=falsy), manager('delegation') + [b'\x00']))
     out.append(('origination', 'forge_origination', content_of('origination', balance=Tok('balance'), script=Tok('script')),
                 org + [b'\x00', C('SCRIPT', '<script>')]))
     out.append(('origination+delegate', 'forge_origination', content_of('origination', balance=Tok('balance'), script=Tok('script'), delegate=Tok('delegate')),
@@ -212,7 +360,7 @@ def h_kind(label, fname, content, schema, via_dispatch):
     from pytezos.operation import forge as F
 
     def h(e: Engine):
-        install(e)
+        install(e, stub_entrypoint='opaque entrypoint' in label)
         try:
             r = e.call(F.forge_operation if via_dispatch else getattr(F, fname), [content])
         except RaiseEx as ex:
@@ -223,6 +371,38 @@ def h_kind(label, fname, content, schema, via_dispatch):
         e.check(f'{"forge_operation→" if via_dispatch else ""}{fname}[{label}]::ensures.fields==schema(tag, order, presence flags)', z3.BoolVal(got == want))
         if got != want:
             e.obl[list(e.obl)[-1]]['reason'] = f'got {got} want {want}'[:600]
+    return h
+
+
+def h_unit_elision(ep_label, ep):
+    """`parameters` = {entrypoint, value} with the value an OPAQUE Micheline node: the field is elided (00) exactly when the
+    entrypoint is `default` AND the node is the bare Unit (primitive Unit, no args, no annotations) - Tezos' encoding of
+    Prim(D_Unit, [], []) to the default entrypoint; an ANNOTATED Unit, any other node, any other entrypoint is forged
+    explicitly as ff ‖ entrypoint ‖ dyn(micheline)."""
+    from pytezos.operation import forge as F
+
+    def h(e: Engine):
+        install(e, stub_entrypoint=isinstance(ep, Tok))
+        node = GNode('value')
+        content = content_of('transaction', amount=Tok('amount'), destination=Tok('destination'), parameters={'entrypoint': ep, 'value': node})
+        tx = manager('transaction') + [C('NAT', '<int(amount)>'), C('ADDR', '<destination>')]
+        tag = f'forge_transaction[%{ep_label} + opaque node]'
+        try:
+            r = e.call(F.forge_transaction, [content])
+        except RaiseEx as ex:
+            e.check(f'{tag}::safety.no_exception[{type(ex.exc).__name__}]', z3.BoolVal(False))
+            return
+        got = norm([r])
+        epb = [b'\xff', C('EP', '<entrypoint>')] if isinstance(ep, Tok) else [b'\xff' + bytes([RESERVED[ep]])]
+        present = norm(tx + epb + [C('ARR', 4, (C('MICH', '<value>'),))])
+        elided = norm(tx + [b'\x00'])
+        e.check(f'{tag}::ensures.fields==schema(elided or explicit parameters)', z3.BoolVal(got in (present, elided)))
+        if got == elided:
+            e.check(f'{tag}::ensures.elided.only_if(default entrypoint and bare Unit: no args, no annotations)',
+                    node.bare_unit() if ep == 'default' else z3.BoolVal(False))
+        elif got == present:
+            e.check(f'{tag}::ensures.explicit.only_if(not (default entrypoint and bare Unit))',
+                    z3.Not(node.bare_unit()) if ep == 'default' else z3.BoolVal(True))
     return h
 
 
@@ -277,6 +457,65 @@ def h_group(k):
     return h
 
 
+def _rename(x, names, i):
+    """the same case with every opaque token renamed name -> name#i (content) / inside the schema strings"""
+    import re
+    if isinstance(x, Tok):
+        return Tok(f'{x.name}#{i}')
+    if isinstance(x, str):
+        for n in names:
+            x = re.sub(rf'(?<![A-Za-z0-9_]){re.escape(n)}(?![A-Za-z0-9_#])', f'{n}#{i}', x)
+        return x
+    if isinstance(x, dict):
+        return {k: (v if k in ('kind', 'prim') else _rename(v, names, i)) for k, v in x.items()}
+    if isinstance(x, (list, tuple)):
+        return type(x)(_rename(v, names, i) for v in x)
+    return x
+
+
+def _toknames(x, acc):
+    if isinstance(x, Tok):
+        acc.add(x.name)
+    elif isinstance(x, dict):
+        for v in x.values():
+            _toknames(v, acc)
+    elif isinstance(x, (list, tuple)):
+        for v in x:
+            _toknames(v, acc)
+    return acc
+
+
+def h_group_mixed(labels, alias=()):
+    """a group of contents of DIFFERENT kinds (tokens of content i are renamed name#i); `alias` = positions that re-use the
+    content OBJECT of an earlier position"""
+    from pytezos.operation import forge as F
+    by_label = {c[0]: c for c in cases()}
+
+    def h(e: Engine):
+        install(e)
+        contents, want = [], [C('B58', '<branch>')]
+        built = []
+        for i, lb in enumerate(labels):
+            _, _, content, schema = by_label[lb]
+            names = _toknames(content, set())
+            built.append((_rename(content, names, i), [(_rename(p, names, i) if not isinstance(p, bytes) else p) for p in schema]))
+        order = list(range(len(labels))) + list(alias)
+        for i in order:
+            contents.append(built[i][0])
+            want += built[i][1]
+        try:
+            r = e.call(F.forge_operation_group, [{'branch': Tok('branch'), 'contents': contents}])
+        except RaiseEx as ex:
+            e.check(f'forge_operation_group[mixed {len(order)}]::safety.no_exception[{type(ex.exc).__name__}]', z3.BoolVal(False))
+            return
+        got = norm([r])
+        e.check(f'forge_operation_group[{len(order)} contents of mixed kinds{", one object twice" if alias else ""}]::ensures.branch‖contents_in_order',
+                z3.BoolVal(got == norm(want)))
+        if got != norm(want):
+            e.obl[list(e.obl)[-1]]['reason'] = f'got {got} want {norm(want)}'[:600]
+    return h
+
+
 def native(case):
     """replay by the independent schema encoder of the bounded part, on a representative concrete operation of that kind"""
     from props import C06_R
@@ -305,6 +544,11 @@ def run_P(ck):
             run_harness(ck, eng, h_kind(label, fname, content, schema, via), f'{fname}[{label}]')
             report(ck, eng, [])
             functions_interpreted(ck, eng)
+    for ep_label, ep in (('default', 'default'), ('root', 'root'), ('stake', 'stake'), ('<opaque>', Tok('entrypoint'))):
+        eng = Engine()
+        run_harness(ck, eng, h_unit_elision(ep_label, ep), f'forge_transaction[unit elision,{ep_label}]')
+        report(ck, eng, [])
+        functions_interpreted(ck, eng)
     for n in (1, 2, 31, None):
         eng = Engine()
         run_harness(ck, eng, h_entrypoint_named(n), f'forge_entrypoint[named,{n}]')
@@ -316,5 +560,13 @@ def run_P(ck):
     for k in (1, 2, 3):
         eng = Engine()
         run_harness(ck, eng, h_group(k), f'forge_operation_group[{k}]')
+        report(ck, eng, [])
+        functions_interpreted(ck, eng)
+    mixed = ['reveal+proof', 'transaction+default value', 'failing_noop', 'delegation+delegate', 'origination']
+    for labels, alias in ((mixed[:2], ()), (mixed, ()), (mixed[1:4], (0,)),
+                          (['transfer_ticket', 'smart_rollup_add_messages', 'activate_account', 'register_global_constant',
+                            'smart_rollup_execute_outbox_message', 'transaction+%stake'], ())):
+        eng = Engine()
+        run_harness(ck, eng, h_group_mixed(labels, alias), f'forge_operation_group[mixed {len(labels) + len(alias)}]')
         report(ck, eng, [])
         functions_interpreted(ck, eng)
